@@ -59,6 +59,53 @@ def _device_reply(line):
     return b"\n" + (b"output of " + line + b"\n" if line else b"") + PROMPT
 
 
+IAC, DO, WILL = b"\xff", b"\xfd", b"\xfb"
+
+
+class TelnetDev:
+    """a Telnet device: login dialogue, echo, output — with option negotiation commands (IAC DO/WILL x) interleaved with the text,
+    also in the middle of words and lines (9 commands in a whole session: the sync transport stops negotiating after 10).
+    Bytes in, bytes out; the client's negotiation replies (IAC verb option) are ignored."""
+
+    def __init__(self):
+        self.state = "user"
+        self.line = b""
+        self.skip = 0
+
+    def connect(self):
+        return IAC + DO + b"\x18" + IAC + WILL + b"\x01" + b"\r\nUser Access Verification\r\n" + IAC + DO + b"\x1f" + b"Username: "
+
+    def on_write(self, data):
+        out = b""
+        for i in range(len(data)):
+            d = data[i:i + 1]
+            if self.skip:
+                self.skip -= 1
+                continue
+            if d == IAC:
+                self.skip = 2
+                continue
+            if d == b"\r":
+                continue
+            if d != b"\n":
+                self.line += d
+                if self.state != "pass":
+                    out += d
+                continue
+            line, self.line = self.line, b""
+            if self.state == "user":
+                self.state = "pass"
+                out += b"\r\nPass" + IAC + WILL + b"\x03" + b"word: "
+            elif self.state == "pass":
+                self.state = "sh"
+                out += b"\r\n" + IAC + DO + b"\x21" + b"r1#"
+            elif line:
+                out += b"\r\noutput " + IAC + DO + b"\x27" + b"of " + line + b"\r\nli" + IAC + WILL + b"\x05" + b"ne2\r\nr1#"
+            else:
+                out += b"\r\nr1#"
+        return out
+
+
 def _tcp_server(mode, offset):
     s = socket.socket()
     s.setsockopt(socket.SOL_SOCKET, socket.SO_REUSEADDR, 1)
@@ -69,6 +116,7 @@ def _tcp_server(mode, offset):
     def run():
         c, _ = s.accept()
         sent = 0
+        dev = TelnetDev()
 
         def drop():
             if mode == "rst":
@@ -85,32 +133,30 @@ def _tcp_server(mode, offset):
 
         def emit(b):
             nonlocal sent
-            for i in range(len(b)):
-                if sent >= offset:
-                    drop()
-                    return False
-                c.sendall(b[i:i + 1])
-                sent += 1
-            return True
-        if not emit(PROMPT):
+            if not b:
+                return True
+            if sent + len(b) <= offset:
+                c.sendall(b)
+                sent += len(b)
+                return True
+            if offset > sent:
+                c.sendall(b[:offset - sent])      # the last bytes before the drop: possibly IAC, or IAC + verb
+                sent = offset
+                time.sleep(0.05)                  # let them arrive on their own before the FIN / RST
+            drop()
+            return False
+        if not emit(dev.connect()):
             return
-        line = b""
         while True:
             try:
-                d = c.recv(1)
+                d = c.recv(4096)
             except OSError:
                 return
             if not d:
                 c.close()
                 return
-            if d in b"\r\n":
-                if not emit(_device_reply(line)):
-                    return
-                line = b""
-            else:
-                line += d
-                if not emit(d):
-                    return
+            if not emit(dev.on_write(d)):
+                return
     threading.Thread(target=run, daemon=True).start()
     return port
 
@@ -205,7 +251,7 @@ def worker(spec):
         kw.update(host="fakehost", transport="system", auth_username="u", auth_password="pw", auth_strict_key=False)
         cls = GenericDriver
     elif rig in ("telnet", "asynctelnet"):
-        kw.update(port=_tcp_server(mode, offset), transport=rig, auth_bypass=True)
+        kw.update(port=_tcp_server(mode, offset), transport=rig, auth_bypass=False, auth_username="u", auth_password="pw")
         cls = GenericDriver if rig == "telnet" else AsyncGenericDriver
     else:
         kw.update(port=_ssh_server(mode, offset), transport=rig, auth_username="u", auth_password="p", auth_strict_key=False)
@@ -251,6 +297,28 @@ def worker(spec):
     asyncio.run(main())
 
 
+def telnet_stream():
+    """everything the Telnet device sends in the scripted session: login as u / pw, get_prompt, two commands"""
+    d = TelnetDev()
+    out = d.connect()
+    for w in (b"u\n", b"pw\n", b"\n", b"show version", b"\n", b"show clock", b"\n"):
+        out += d.on_write(w)
+    return out
+
+
+def iac_offsets():
+    """offsets of the session stream that fall strictly inside a 3-byte command (after IAC, after IAC + verb)"""
+    st, res = telnet_stream(), []
+    i = 0
+    while i < len(st):
+        if st[i:i + 1] == IAC:
+            res += [i + 1, i + 2]
+            i += 3
+        else:
+            i += 1
+    return res
+
+
 # ------------------------------------------------------------------------------------------------ parent side
 def _bindir():
     d = Path("/tmp/c08-rig-bin")
@@ -288,9 +356,10 @@ def specs(repo):
     b = _bindir()
     for n in list(range(0, 75)) + [90, 120]:
         out.append({"rig": "pty", "mode": "kill", "offset": n, "repo": repo, "bindir": b})
+    ntel = len(telnet_stream())
     for rig in ("telnet", "asynctelnet"):
         for mode in ("fin", "rst"):
-            for n in list(range(0, 60)) + [75, 100]:
+            for n in list(range(0, ntel + 1)) + [ntel + 40]:     # every byte offset of the session, also inside the IAC commands
                 out.append({"rig": rig, "mode": mode, "offset": n, "repo": repo})
     for rig in ("paramiko", "asyncssh"):
         for mode in ("abort", "close", "exit"):
